@@ -42,6 +42,11 @@ func (m *lock) Unlock(l uint8) {
 func (m *lock) LockSafe() uint8 {
 	verifYield(verifBeforeLock, &m.mu)
 	m.mu.Lock()
+	if m.bitPool.Exhausted() {
+		// bitPool.Get panics when all bits are in use. Release the mutex first,
+		// as the panic may be recovered and the world used further.
+		m.mu.Unlock()
+	}
 	lock := m.bitPool.Get()
 	verifYield(verifInLock, nil)
 	m.locks.Set(lock)
